@@ -15,7 +15,10 @@ Inductive case :=
 | KAll (c : cfg) (stream out : string)
 (* as KSeg, for long byte strings: each one is given in pieces (a hex literal of 100 KB and more
    overflows coqc's stack) *)
-| KSegL (c : cfg) (reads : list (list string)) (cum : list N) (out : list string) (dead : bool).
+| KSegL (c : cfg) (reads : list (list string)) (cum : list N) (out : list string) (dead : bool)
+(* as KSeg, every read with the time (milliseconds since the connection opened) at which the script
+   hands it to the handler: keys with deadlines *)
+| KTtl (c : cfg) (reads : list (N * string)) (cum : list N) (out : string) (dead : bool).
 
 Fixpoint feed (g : cfg) (k : mconn) (reads : list bytes) : mconn * list N :=
   match reads with
@@ -23,6 +26,21 @@ Fixpoint feed (g : cfg) (k : mconn) (reads : list bytes) : mconn * list N :=
   | r :: t =>
     let k' := mon_read g k r in
     let '(kf, l) := feed g k' t in
+    (kf, N.of_nat (List.length (wire (output _ _ k'))) :: l)
+  end.
+
+(* the backend's clock is set from outside (the virtual time every shard message carries) *)
+Definition set_clock (k : mconn) (t : N) : mconn :=
+  mkConn _ _ (cbuf _ _ k)
+         (mkCore _ _ (at_time (st _ _ (ccore _ _ k)) t) (txs _ _ (ccore _ _ k)) (outp _ _ (ccore _ _ k)))
+         (cstat _ _ k).
+
+Fixpoint feed_t (g : cfg) (k : mconn) (reads : list (N * bytes)) : mconn * list N :=
+  match reads with
+  | [] => (k, [])
+  | (t, r) :: rest =>
+    let k' := mon_read g (set_clock k t) r in
+    let '(kf, l) := feed_t g k' rest in
     (kf, N.of_nat (List.length (wire (output _ _ k'))) :: l)
   end.
 
@@ -39,7 +57,7 @@ Definition final_wire (g : cfg) (reads : list bytes) : bytes :=
   wire (output _ _ (mrun g (filter (fun r => negb (match r with [] => true | _ => false end)) reads))).
 
 Definition check_seg (g : cfg) (reads : list bytes) (cum : list N) (out : bytes) (dead : bool) : bool :=
-  let '(kf, l) := feed g (conn_init _ _ []) reads in
+  let '(kf, l) := feed g (conn_init _ _ m0) reads in
   if dead then is_dead kf
   else negb (is_dead kf) && listN_eqb l cum && bytes_eqb (wire (output _ _ kf)) out.
 
@@ -47,6 +65,10 @@ Definition check (k : case) : bool :=
   match k with
   | KSeg g reads cum out dead => check_seg g (map unhex reads) cum (unhex out) dead
   | KSegL g reads cum out dead => check_seg g (map (flat_map unhex) reads) cum (flat_map unhex out) dead
+  | KTtl g reads cum out dead =>
+    let '(kf, l) := feed_t g (conn_init _ _ m0) (map (fun p => (fst p, unhex (snd p))) reads) in
+    if dead then is_dead kf
+    else negb (is_dead kf) && listN_eqb l cum && bytes_eqb (wire (output _ _ kf)) (unhex out)
   | KAll g stream out =>
     let s := unhex stream in
     let o := unhex out in
